@@ -215,7 +215,14 @@ def ring_protocol(repo, tier="quick"):
             obs.append(ob_ok(oid, fi, site["ast"], construct="ring open/close (%s): open stores [current, pending order]; close records (current, opener, stored order) and deletes the entry" % label,
                              instance="protocol", reason="the table is empty exactly when no ring is open; ring bonds join opener and closer with the opener's order"))
             if "order" in facts:
-                order_vars.add(facts["order"])
+                ov = facts["order"]
+                has_symbol_def = any(d.var == ov and d.kind == "assign" and isinstance(d.value, ast.Subscript) and isinstance(d.value.slice, ast.Name)
+                                     for d in fl.defs)
+                if ov in fl.locals and not has_symbol_def:
+                    obs.append(ob_fail(oid, fi, site["ast"], construct="ring opened with order %s" % ov, instance="protocol:order",
+                                       reason="the order stored for an opening marker is %s, which is never set from a bond order symbol: a symbol written in front of the marker is lost" % ov))
+                else:
+                    order_vars.add(ov)
         else:
             obs.append(ob_fail(oid, fi, site["ast"], construct="ring open/close (%s)" % label, instance="protocol", reason=why))
     # writers of the table: only the sites (inline arms or helpers)
